@@ -31,10 +31,10 @@ Oracle (implementation only), after every op and for every open model:
   O8 mxsys._check_sanity() does not raise;
   O9 (a sample in the quick tier, every clean history in the thorough tier) write + read_model:
      every spec'd value is read back equal under every name it was bound to.
-Six defects are known findings (new_pandas onto a scalar cells name, new_pandas twice for one value,
+Four defects are known findings (new_pandas onto a scalar cells name, new_pandas twice for one value,
 del model.S of a space holding tracked references, update_pandas onto an object that is already
-referenced, new_pandas through the handle of a closed model, two spellings of one file location);
-five others found by this check were repaired in /repo and their witnesses are
+referenced) and so is the design of ios under absolute paths (oracle-only stream: they have no model, and
+an absolute path can denote the file of a relative one); seven others found by this check were repaired in /repo and their witnesses are
 regression inputs (corpus/C18/fixed-*.json, no key, must pass).
 A failure is attributed to a known finding only if (a) the oracle recognised the trigger from the
 implementation's own state before the op and (b) the Lean model flags the same op with the same
@@ -63,8 +63,7 @@ KEYS = {
     "double-spec": "C18-double-spec",
     "del-space": "C18-del-space",
     "update-onto-referenced": "C18-update-onto-referenced",
-    "closed-model-new-spec": "C18-closed-model-new-spec",
-    "path-alias": "C18-path-alias",
+    "path-alias": "C18-absolute-io-shared",      # only an ABSOLUTE path can still alias another key
     "absolute-io": "C18-absolute-io-shared",
 }
 # a failure of these oracle items is attributed to the trigger also when the trigger was met EARLIER in the
@@ -589,14 +588,13 @@ def pre_trigger(w, op):
                 trig.append("cells-name")
             if iom.get_spec_from_value(model, data) is not None:
                 trig.append("double-spec")
-            if m not in w.open:
-                trig.append("closed-model-new-spec")
         if kind in ("newpandas", "setpath"):
             # another key of the model denotes the requested file in another spelling
             import pathlib
             arg = w.path_arg(m, op[4] if kind == "newpandas" else op[3])
             key, loc = pathlib.Path(arg), w.location(m, arg)
-            if any(path != key and w.location(m, path) == loc for path, _ in w.ios_of(m)):
+            if any(path != key and w.location(m, path) == loc and (path.is_absolute() or key.is_absolute())
+                   for path, _ in w.ios_of(m)):
                 trig.append("path-alias")
             # ios under absolute paths have no group: one io per path for the whole session
             if key.is_absolute() or (kind == "setpath" and any(
